@@ -34,18 +34,19 @@ def units(tier):
             out.append(("topo", n, a, min(N, a + STEP)))
     for i in range(len(cycles.ALIAS_PROGRAMS)):
         out.append(("alias", i, 0, 1))
+    out.append(("two-modules", 0, 0, 1))
     return out
 
 
 def meta(tier):
     return {
-        "rule": f"every cyclic class topology over <= {NMAX[tier]} classes (1-2 links per class, <= n+1 links, edge kinds {cycles.KINDS}, non-root relabelings identified) "
-        f"x module styles (from __future__ import annotations / eager with string back references / all classes nested in an outer class) x every root form {cycles.ROOT_FORMS} of every class "
+        "rule": f"every cyclic class topology over <= {NMAX[tier]} classes (1-2 links per class, <= n+1 links, edge kinds {cycles.KINDS} (a bare class-typed link only towards a class without bare links), non-root relabelings identified) "
+        f"x module styles (from __future__ import annotations / eager with string back references / all classes nested in an outer class / TypedDict classes / NamedTuple classes) x every root form {cycles.ROOT_FORMS} of every class "
         f"x depths {DEPTHS[tier][0]}..{DEPTHS[tier][-1]} (payloads given as text so an unconverted level is visible), plus 10 recursive-alias programs (string-valued TypeAliasType and PEP 695 `type` statements, also with the alias value as root); "
         "oracle: build within the wall limit; unmarshal(T, wire) same-as the value built directly with the classes; marshal gives the all-plain wire; "
         "round trip; both build orders agree; non-trivial = the call returned; distinct by (topology, style, root, depth, outcome)",
         "bounds": {"classes": NMAX[tier], "depths": DEPTHS[tier]},
-        "assumptions": ["cold state per program", "depth <= 150 stays below the default recursion limit of 1000"],
+        "assumptions": ["cold state per program", "thorough tier: sys.setrecursionlimit(5000) (the library needs up to ~10 frames per level, depth 150 does not fit under 1000)"],
         "exhaustive": True,
     }
 
@@ -59,7 +60,7 @@ def load(src):
     return name, cycles.view(prelude.mkmod(name, src).__dict__)
 
 
-def judge_root(topo, style, ns, form, node, depths, res, case, order="mu"):
+def judge_root(topo, style, ns, form, node, depths, res, case, order="mu", flavour="dc"):
     ann = cycles.root_ann(ns, form, node)
     if order == "mu":
         bm = timed(BUILD_LIMIT, typelib.marshaller, ann)
@@ -80,7 +81,7 @@ def judge_root(topo, style, ns, form, node, depths, res, case, order="mu"):
         full = 2 if d <= 4 else 0
         w = cycles.root_wire(form, topo.wire(node, d, full))
         wi = cycles.root_wire(form, topo.wire(node, d, full, ints=True))
-        e = cycles.root_expected(form, topo.expected(ns, node, d, full))
+        e = cycles.root_expected(form, topo.expected(ns, node, d, full, flavour=flavour))
         u = call(bu.val, w)
         res.evals += 1
         key = h64(topo.key(), style, form, node, d, "ok" if u.ok else u.excname)
@@ -121,10 +122,13 @@ def judge_root(topo, style, ns, form, node, depths, res, case, order="mu"):
 def run_topo(n, idx, tier, res, only=None):
     topo = topos(n)[idx]
     depths = DEPTHS[tier]
-    for style in ("future", "eager", "nested"):
-        if style == "nested" and n > 2:
+    for style in ("future", "eager", "nested", "td", "nt"):
+        if style in ("nested", "td", "nt") and n > 2:
             continue
-        src = topo.source(style == "future", nested=(style == "nested"))
+        if style in ("nested", "td", "nt") and tier == "quick" and sum(len(ls) for ls in topo.links) > 2:
+            continue  # quick: the extra class styles only on the topologies with at most two links
+        flavour = style if style in ("td", "nt") else "dc"
+        src = topo.source(style == "future", nested=(style == "nested"), flavour=flavour)
         for node in range(n):
             for form in cycles.ROOT_FORMS:
                 if only is not None and (style, node, form) != tuple(only):
@@ -135,7 +139,7 @@ def run_topo(n, idx, tier, res, only=None):
                 res.programs += 1
                 case = {"kind": "topo", "n": n, "idx": idx, "only": [style, node, form], "topology": topo.key(), "module": src}
                 try:
-                    a = judge_root(topo, style, ns, form, node, ds, res, case, "mu")
+                    a = judge_root(topo, style, ns, form, node, ds, res, case, "mu", flavour)
                 finally:
                     prelude.dropmod(name)
                 # (3) the opposite build order in a fresh cold state must agree
@@ -144,7 +148,7 @@ def run_topo(n, idx, tier, res, only=None):
                     name, ns = load(src)
                     try:
                         sub = Result_like(res)
-                        b = judge_root(topo, style, ns, form, node, [d for d in ds if d <= 3], sub, case, "um")
+                        b = judge_root(topo, style, ns, form, node, [d for d in ds if d <= 3], sub, case, "um", flavour)
                         if b is not None:
                             for x, y in zip(a, b):
                                 if (x is None) != (y is None):
@@ -205,7 +209,62 @@ def run_alias(i, tier, res):
         prelude.dropmod(name)
 
 
+TWO_MOD_SHAPES = 'import typing\nScalar = int\nTree = typing.TypeAliasType("Tree", "dict[str, Tree | Scalar]")\nKids = typing.TypeAliasType("Kids", "list[Kids]")\n'
+TWO_MOD_APP = ('import dataclasses, typing, tlg_c07_shapes\nPayload = typing.TypeAliasType("Payload", tlg_c07_shapes.Tree)\nNT = typing.NewType("NT", tlg_c07_shapes.Tree)\n'
+               'FinalTree = typing.Final[tlg_c07_shapes.Tree]\n@dataclasses.dataclass\nclass Holder:\n    p: Payload\n    k: tlg_c07_shapes.Kids = dataclasses.field(default_factory=list)\n')
+
+
+def run_two_modules(tier, res):
+    """a string-valued recursive alias reached through wrappers declared in ANOTHER module that does not bind the names of the alias text"""
+    cold.clear_all()
+    prelude.mkmod("tlg_c07_shapes", TWO_MOD_SHAPES)
+    app = prelude.mkmod("tlg_c07_app", TWO_MOD_APP).__dict__
+    res.programs += 1
+    case = {"kind": "two-modules"}
+    for rootname in ("Payload", "NT", "FinalTree", "list[Payload]", "Holder"):
+        cold.clear_all()
+        ann = eval(rootname, app)  # noqa: S307
+        for d in (0, 1, 2, 5):
+            w, e = cycles.alias_value("dict-alias", d)
+            if rootname == "list[Payload]":
+                w, e = [w], [e]
+            if rootname == "Holder":
+                w, e = {"p": w, "k": [[]]}, app["Holder"](p=e, k=[[]])
+            u = call(typelib.unmarshal, ann, w)
+            res.evals += 1
+            res.outcomes.add(h64("two-modules", rootname, d, "ok" if u.ok else u.excname))
+            if u.ok:
+                res.nontrivial.add(h64("two-modules", rootname, d))
+            if not u.ok or not same(u.val, e):
+                res.violation(f"C07/alias/two-modules/{rootname}/unmarshal/{'raises:' + u.excname if not u.ok else 'level-not-converted'}",
+                              f"unmarshal({rootname}, depth {d}) -> {short(u.val if u.ok else u.exc, 120)}; expected {short(e, 120)}", case)
+                break
+            m = call(typelib.marshal, e, t=ann)
+            res.evals += 1
+            wi = cycles.alias_value("dict-alias", d)[1]
+            if rootname == "list[Payload]":
+                wi = [wi]
+            if rootname == "Holder":
+                wi = {"p": wi, "k": [[]]}
+            if not m.ok or not same(m.val, wi):
+                res.violation(f"C07/alias/two-modules/{rootname}/marshal/{'raises:' + m.excname if not m.ok else 'value'}", f"marshal(depth {d}, t={rootname}) -> {m!r}", case)
+                break
+    prelude.dropmod("tlg_c07_shapes")
+    prelude.dropmod("tlg_c07_app")
+
+
+def init_worker(tier):
+    # "any depth below the interpreter's recursion limit": the library needs up to ~10 Python frames per level
+    # (generator expressions, union suppression), so depth 150 does not fit under the default limit of 1000.
+    # The deep tier therefore runs with a limit of 5000 - an environment parameter, stated in the evidence.
+    if tier == "thorough":
+        sys.setrecursionlimit(5000)
+
+
 def run_unit(unit, tier, res):
+    if unit[0] == "two-modules":
+        run_two_modules(tier, res)
+        return
     if unit[0] == "alias":
         run_alias(unit[1], tier, res)
         return
@@ -215,6 +274,9 @@ def run_unit(unit, tier, res):
 
 
 def replay(case, tier, res):
+    if case["kind"] == "two-modules":
+        run_two_modules(tier, res)
+        return
     if case["kind"] == "alias":
         run_alias(case["idx"], tier, res)
     else:
